@@ -324,7 +324,13 @@ def observables_differ(a, b):
         x, y = a[k], b[k]
         if isinstance(x, np.ndarray) or isinstance(y, np.ndarray):
             x, y = np.asarray(x), np.asarray(y)
-            if x.shape != y.shape or not (x.tobytes() == y.tobytes() or np.array_equal(x, y, equal_nan=True)):
+            same = x.shape == y.shape and (x.tobytes() == y.tobytes() or np.array_equal(x, y, equal_nan=True))
+            if not same and x.shape == y.shape and x.dtype.kind in "fc" and y.dtype.kind in "fc":
+                # a few ulp are not a property violation (an implementation may update a stored quantity instead of
+                # recomputing it); anything stale is off by a finite fraction
+                scale = max(float(np.max(np.abs(x))) if x.size else 0.0, float(np.max(np.abs(y))) if y.size else 0.0)
+                same = bool(np.all(np.abs(x - y) <= 1e-12 * scale))
+            if not same:
                 return f"{k}: {np.array2string(x.ravel()[:6], precision=17)} (live object) vs {np.array2string(y.ravel()[:6], precision=17)} (fresh object with the same attributes)"
         elif x != y:
             return f"{k}: {str(x)[:120]} (live object) vs {str(y)[:120]} (fresh object with the same attributes)"
